@@ -45,6 +45,11 @@ T('C15',
   'Bounded exhaustive model checking over programs (input files): every documented built-in selector (30) x every constructor key x value letters (<=1 key quick, all key pairs thorough), all error letters (unknown selector / unknown key), every mixin+base composite, a custom class per section, priors/fitting/derive/binning sections, and the command-line program (-i -S -o) against library-assembled models for the model x binning full product - all executed on the real parser, factory and main(); the documented interface is transcribed in mc/docspec.py and cross-checked against the .rst files of the working tree on every run.',
   'plugin components (ace, BHMie) and samplers not installed (polychord, dypolychord) out of scope; documented-vs-code key/default/class-name mismatches are reported as notes only; PhoenixStar/Taurex/Iraclis/lightcurve constructors checked up to argument arrival (no data files); retrieval (-R) path of main() not run; numba/numpy/configobj/h5py trusted')
 
+T('C18',
+  'explicit-state exhaustive enumeration over (ranks, samples, weights, every assignment samples->ranks, both forced arrival orders) on the real code under a simulated MPI communicator (threads + full-barrier pickling collectives), against a two-pass weighted-variance reference and the genuine single-process run',
+  'Model checking over schedules and inputs: bounded exhaustive, R<=3 n<=4 (thorough R<=4 n<=6), all R^n assignments of samples to ranks, both forced arrival orders at every collective (bit-identical observations required, divergence is a harness error), for OnlineVariance.update/parallelVariance directly and for Optimizer.generate_profiles / compute_derived_trace / fit() with a nestle double where every rank owns its model, observation and optimiser; every rank must reproduce the two-pass weighted variance of all samples and the single-process traces; each sample processed exactly once; collective mismatches and deadlocks are detected by the simulator (timeouts, never a hang).',
+  'mpi4py not installed: rank identity, collective semantics and pickle serialisation are simulated, MPI progress/failure is not; ranks are threads sharing process singletons; weight lattice {0,1e-300,0.1,0.5,1}; all-zero weight vectors excluded (variance undefined)')
+
 
 def main():
     props = [json.loads(l) for l in open(os.path.join(VERIF, 'properties.jsonl'))]
